@@ -23,9 +23,10 @@ type c19Obs struct {
 }
 
 type c19Run struct {
-	Subj []string `json:"subj"`
-	Exp  []c19Obs `json:"exp"`
-	Dev  []c19Obs `json:"dev"`
+	Subj  []string `json:"subj"`
+	Exp   []c19Obs `json:"exp"`
+	Dev   []c19Obs `json:"dev"`
+	Eager bool     `json:"eager"` // a matcher that compares every position of an array pattern would do something not admitted here
 }
 
 type c19Vec struct {
@@ -111,6 +112,8 @@ func (in *c19Inst) src(toks []string) string {
 			sb.WriteString("'" + t[1:] + "'")
 		case strings.HasPrefix(t, "@"):
 			sb.WriteString(in.names[t])
+		case t == "%o":
+			sb.WriteString("{z: 1}")
 		default:
 			sb.WriteString(t)
 		}
@@ -133,6 +136,8 @@ func (in *c19Inst) outLine(toks []string) string {
 			sb.WriteString(in.str)
 		case strings.HasPrefix(t, "$"):
 			sb.WriteString(t[1:])
+		case t == "%o":
+			sb.WriteString(`{"z": 1}`)
 		default:
 			sb.WriteString(t)
 		}
@@ -186,7 +191,7 @@ func (in *c19Inst) matches(o *c19Obs, r *Result) bool {
 
 // C19: match selects the first matching case, binds pattern names, yields its value.
 func checkC19(c *Ctx) {
-	c.Assume("a literal pattern against an array subject (or array element) is `array == literal`, a runtime error for `==`: both 'runtime error' (positions compared left to right, or all compared) and 'no match' are accepted; null literals never err")
+	c.Assume("a literal pattern against an array or object subject (or element) is `container == literal`, a runtime error for `==`: 'no match' and 'runtime error' are both accepted, the error only where no position of the enclosing array pattern before it (reading short: left to right) or anywhere (reading decided) has already failed to match; an error raised by a position AFTER one that does not match is not admitted (the pattern is a non-match, a later case must be reached); null literals never err")
 	c.Assume("patterns other than literals (number, string, null, true), identifiers and array patterns are outside the model; an identifier bound twice in one pattern is outside the model")
 	c.Assume("a body reads only names that some alternative of its case or of an earlier case binds; where the alternative that matched does not bind the name it must denote the program's preset global (a name bound only by a pattern that did not match is not visible); names no pattern binds are not read")
 	c.Assume("literal matching is the language's own `==`: the table of scalar comparisons the model relies on (DESIGN.md 3.4) is first confirmed on the real code; runs that depend on a deviating pair are skipped (C05 owns `==`)")
@@ -272,7 +277,7 @@ func checkC19(c *Ctx) {
 		return false
 	}
 
-	var nOK, nNull, nErrOK, nKnown, nSkip, nBal, nMultiAlt int
+	var nOK, nNull, nErrOK, nKnown, nSkip, nBal, nMultiAlt, nEager int
 	perTier := map[int]int{}
 	nSample := 0
 	devOpen := c.OpenDev(c19Dev)
@@ -393,6 +398,9 @@ func checkC19(c *Ctx) {
 		if multi {
 			nMultiAlt++
 		}
+		if run.Eager {
+			nEager++
+		}
 		perTier[m.v.Tier]++
 		c.Case(m.prog, hit.Sel > 0)
 		if !known && hit.Sel > 1 && multi && nSample < 4 && (nOK%9973 == 5 || nSample == 0) {
@@ -430,14 +438,15 @@ func checkC19(c *Ctx) {
 		big = "TRUE"
 	}
 	c.TLC(TLCOpt{Module: "MC_Match",
-		Cfg: cfgText("INIT Init", "NEXT Next", "CONSTANTS", "Big = "+big, "Tiers = {1, 2, 3}",
+		Cfg: cfgText("INIT Init", "NEXT Next", "CONSTANTS", "Big = "+big, "Tiers = {1, 2, 3, 4}",
 			"INVARIANT Laws", "INVARIANT Vec", "CHECK_DEADLOCK FALSE"),
 		OnVec: onVec, Workers: 12, Heap: "6g"})
 	st.Wait()
 
 	c.Set("exhaustive", true)
 	c.Set("rule", "TLC enumerates case lists (tier 1: one case, <= 2 ordered alternatives from 42 patterns (literals 1, 2, 'a', null, true; identifier; array patterns of length 0..2, nested to depth 2, identifiers at every position), every body kind; "+
-		"tier 2: two cases over a pool of 7 (thorough 12) patterns with <= 2 alternatives plus the bind-then-fail lists [x,2] and [x,2],[2,y], 6 body schemes; tier 3: three cases over 13 (thorough 25) alternative lists, 6 body schemes) x the 10 subjects; "+
+		"tier 2: two cases over a pool of 7 (thorough 12) patterns with <= 2 alternatives plus the bind-then-fail lists [x,2] and [x,2],[2,y], 6 body schemes; tier 3: three cases over 13 (thorough 25) alternative lists, 6 body schemes) x the 10 subjects (tier 1: plus [2,[1]] and [2,{z:1}], a container after a scalar); "+
+		"tier 4 (position by position): 42 array patterns of length 2 and 3 with a literal / identifier / array pattern (depth 2) at every position, alone or followed by a catch-all alternative (thorough: by every other pattern of the pool), with and without a later catch-all case, 4 body schemes, x 14 subjects with a scalar / array / object at every position (depth 3); "+
 		"bodies also read names bound only by an alternative or an earlier case that does not match (tier 1: every name of the case; scheme G in tiers 2, 3), expected: the preset global; "+
 		"one real run per (case list, subject); non-trivial = some case is selected; distinct by program text")
 	c.Set("checker_cmd", "tlc MC_Match; replay `print match (subject) { cases }` through lang.EvalProgram in worker subprocesses, with Push/Pop events")
@@ -447,6 +456,7 @@ func checkC19(c *Ctx) {
 	c.Set("runs_runtime_error_admitted", nErrOK)
 	c.Set("runs_explained_only_by_known_deviation", nKnown)
 	c.Set("runs_with_several_alternatives", nMultiAlt)
+	c.Set("runs_where_comparing_every_position_is_not_admitted", nEager)
 	c.Set("runs_frame_balance_checked", nBal)
 	c.Set("inconclusive_or_skipped", nSkip)
 	if knownWitness != "" {
